@@ -326,6 +326,15 @@ impl World {
         if std::env::var("SIM_NOTES").is_ok() {
             eprintln!("NOTE {}", s);
         }
+        #[cfg(any(feature = "var_a", feature = "var_b"))]
+        if let Ok(a) = std::env::var("SIM_WATCH_VO") {
+            let a = usize::from_str_radix(a.trim_start_matches("0x"), 16).unwrap();
+            let addr = unsafe { Address::from_usize(a) };
+            if mmtk::memory_manager::is_mapped_address(addr) {
+                let v = mmtk::memory_manager::is_mmtk_object(addr).is_some();
+                eprintln!("WATCH vo({:#x})={} at: {}", a, v, s);
+            }
+        }
         if self.recent.len() >= 40 {
             self.recent.pop_front();
         }
@@ -463,6 +472,18 @@ pub fn on_scan_object(object: ObjectReference, h: &Hdr) {
                 "scan-stale-copy",
                 format!("scan_object on a stale (moved-from) copy {:?} id {}", object, h.id),
             );
+        }
+        // The collector must only ever trace real objects.
+        match w.objs.get(&h.id) {
+            Some(o) if o.size == h.size as usize && o.nrefs == h.nrefs as usize => {}
+            _ => violation(
+                "C01",
+                "scan-of-non-object",
+                format!(
+                    "scan_object({:?}): the header there ({:?}) does not describe any object the VM ever allocated",
+                    object, h
+                ),
+            ),
         }
         w.pause.scans += 1;
         *w.pause.scanned_ids.entry(h.id).or_insert(0) += 1;
@@ -924,6 +945,15 @@ impl Observer for Obs {
     }
 
     fn event_str(&self, _tid: usize, _step: u64, kind: u32, a: usize, s: &str) {
+        #[cfg(any(feature = "var_a", feature = "var_b"))]
+        if let Ok(wa) = std::env::var("SIM_WATCH_VO") {
+            let wa = usize::from_str_radix(wa.trim_start_matches("0x"), 16).unwrap();
+            let addr = unsafe { Address::from_usize(wa) };
+            if mmtk::memory_manager::is_mapped_address(addr) {
+                let v = mmtk::memory_manager::is_mmtk_object(addr).is_some();
+                eprintln!("WATCH vo({:#x})={} at: event {} {} {}", wa, v, kind, a, s);
+            }
+        }
         with_world(|w| match kind {
             ev::PACKET_ADD => w.sched.pending_name = Some((a, s.to_string())),
             ev::PACKET_RUN => w.sched.pending_run_name = Some(s.to_string()),
